@@ -224,6 +224,17 @@ def run_case(case):
             reattach(y, spec)
             addr = ctypes.addressof(y)
             did = None
+            wall_differs = bool(prng.getrandbits(1)) and not name.startswith('walltime')
+            if wall_differs:
+                # source and copy have been busy for different wall-clock times (as after advancing them separately): still equal, and a
+                # real difference in any other field must still be reported
+                for fid2, (dt2, nm2, es2, off2, offN2) in ft.items():
+                    if nm2.startswith('walltime') and dt2 == 0:
+                        w_ = ctypes.c_uint64.from_address(addr + off2)
+                        w_.value ^= 1 << 30
+                counters['perturbations_with_walltime_differing'] = counters.get('perturbations_with_walltime_differing', 0) + 1
+                if cdiff(x, y) or cdiff(y, x) or not (x == y):
+                    viol.append(dict(mech='compare:walltime-difference-reported', msg='only the walltime fields differ but compare says different'))
             ybytes = ctypes.string_at(addr, ctypes.sizeof(y))
             if dtype in (0,):          # double: flip lowest mantissa bit... use a visible bit
                 v = ctypes.c_uint64.from_address(addr + off)
@@ -290,7 +301,7 @@ def run_case(case):
             counters['perturbations'] += 1
             cy = rt.sabin_sim(y, drop_walltime=False)
             cx = rt.sabin_sim(x, drop_walltime=False)
-            changed = rt.diff_keys(cx, cy)
+            changed = [k_ for k_ in rt.diff_keys(cx, cy) if not (wall_differs and str(k_).startswith('walltime'))]
             is_wall = name.startswith('walltime')
             r1, r2 = cdiff(x, y), cdiff(y, x)
             eq = (x == y)
